@@ -87,7 +87,9 @@ theorem skel_websocketClient_shape :
   "c.exiting = exiting",
   "var hnd reqestHandler",
   "if len(config.reverseHandlers) > 0",
-  "  h := makeHandler(defaultServerConfig())",
+  "  sc := defaultServerConfig()",
+  "  sc.methodNameFormatter = config.methodNamer",
+  "  h := makeHandler(sc)",
   "  h.aliasedMethods = config.aliasedHandlerMethods",
   "  range config.reverseHandlers",
   "    h.register(reverseHandler.ns, reverseHandler.hnd)",
